@@ -205,8 +205,6 @@ Proof.
 Qed.
 
 (* no callback of g executing at the end of the trace: all of it *)
-Definition idle (s : st) (g : N) : Prop :=
-  forall k w i c, workers s !! k = Some (WRun w i c) -> gid_of s w <> Some g.
 
 Lemma group_pubs_idle_pf {M} (msgs : N -> list M) : forall tr s pd ps g,
   run init tr = Some s -> consistent msgs tr pd ps -> g <> 0%N -> idle s g ->
